@@ -40,6 +40,15 @@ CHECKS = {
              "is called, and a no-follow snapshot of the whole sandbox before/after is judged by TLC (FsRemoveTrace.tla); seeded random larger trees go through the same judgement.",
         note="Trusted: TLC, the Lstat-based snapshot, os.Symlink; link scenarios on the OS backend only.",
         technique="TLA+ reference semantics + TLC exhaustive scenario enumeration; replay on real filesystems; TLC trace validation"),
+    "C05": dict(
+        category="model_checking", design_ref="DESIGN.md 5/C05",
+        text="ProcTree.tla models the direct child (leader of its process group) and up to three descendants (parent, stays in the group or setsid, ignores SIGTERM, keeps the output pipes), "
+             "kernel signalling, os/exec's Wait (child dead and pipes closed, or a bounded wait) and the library's reaction to a stop request (kill the child only, or TERM + KILL to the group); "
+             "TLC checks AfterReturnNoSurvivor, IsOnFalseAfterwards and the liveness property StopReturns under fairness over every scenario, with three sensitivity configurations that must fail. "
+             "Every scenario is emitted and a sample is run as a real process tree of re-executed harness processes through Execute / Start and context / Cancel() / Stop(); return latency, "
+             "survivors in the group (from /proc) and IsOn() are judged by TLC (ProcTreeTrace.tla).",
+        note="Trusted: TLC, /proc/<pid>/stat, the kernel's process-group semantics; 'promptly' is a 12 s bound.",
+        technique="TLA+ process-tree specification + TLC safety and liveness check; replay as real process trees; TLC trace judgement"),
     "C07": dict(
         category="model_checking", design_ref="DESIGN.md 5/C07",
         text="ArchiveRoundTrip.tla models a tree, the entries Zip writes for it (one per directory and per file, relative names) and what Unzip / the read-only views make of them; TLC checks "
